@@ -1,6 +1,7 @@
 (* VSys.v — the pipeline in its second configuration: Scheduler over scheduler.NewVolatileTaskRepo(CronStore).
    volatileTaskRepo (scheduler/repository.go) is modelled here over the cron-store model Cron.v; the
-   scheduler automaton is the one of Sys.v (same program counters, same calls), without fault injection.
+   scheduler automaton is the one of Sys.v (same program counters, same calls), without fault injection - except for
+   the one fault that matters in this configuration: the store's Pop inside MarkAsDispatched may fail (head_bound).
    Task ids are uuids the store draws itself: they are learnt from the observations (the model's tasks carry
    the blank id) and must stay consistent per pending task. No proofs here. *)
 From GK Require Export Cron Sys.
@@ -91,6 +92,14 @@ Section WithSchedule.
             RErr EAlreadyCancelled)
          | None => (s, match hd with None => RErr EExhausted | Some _ => ROk end)
          end.
+
+  (* the head of the store is known under [id]: the condition under which v_mark_disp calls the store's Pop.
+     A Pop that fails (transient error, nothing popped) is returned as is: the record is kept, the store untouched *)
+  Definition head_bound (s : vsys) (id : string) : bool :=
+    match pt_min None (cr_pending (vs_cron s)) with
+    | Some h => match id_of (vs_ids s) (pt_ins h) with Some i => String.eqb i id | None => false end
+    | None => false
+    end.
 
   Definition vaccept (s : vsys) (t : task) : vsys :=
     mkVS (vs_cron s) (vs_ids s) (vs_record s) (vs_now s) (vs_last s) (vs_err s) (PEnd (SDispatched (t_id t)) false)
@@ -209,6 +218,9 @@ Section WithSchedule.
         match vs_last s with
         | Some t =>
           if String.eqb id (t_id t) then
+            if cret_eqb r (RRes (RErr EOther)) && head_bound s id
+            then Some (set_vsched s None false (PEnd (SDispatchErr t) false))   (* Pop failed: nothing popped *)
+            else
             let (s', x) := v_mark_disp s id in
             if cret_eqb r (RRes x)
             then Some (if is_err_res x then set_vsched s' None false (PEnd (SDispatchErr t) false)
@@ -219,6 +231,9 @@ Section WithSchedule.
         end
       | PDisp1 k t, CMarkDisp id =>
         if String.eqb id (t_id t) then
+          if cret_eqb r (RRes (RErr EOther)) && head_bound s id
+          then Some (set_vpc s (PEnd (SDispatchErr t) true))                    (* Pop failed: nothing popped *)
+          else
           let (s', x) := v_mark_disp s id in
           if cret_eqb r (RRes x)
           then Some (if is_err_res x then set_vpc s' (PEnd (SDispatchErr t) true) else set_vpc s' (PDisp2 k t))
